@@ -1,4 +1,5 @@
 """C04 — Total and terminating: the panic clause, as an exhaustive triaged inventory (see DESIGN.md §3 C04)."""
+import re
 from vlib.mir import norm, loc_str, op_place
 from rules import panics
 from rules.panic_triage import TRIAGE
@@ -17,12 +18,51 @@ def entry_bodies(ctx, rep, names):
     return out
 
 
+def _outer(fid):
+    return re.sub(r"(::\{closure#\d+\})+$", "", norm(fid))
+
+
+def _kind_of_key(k):
+    kind = re.sub(r"#\d+$", "", k.split("|", 1)[1]) if "|" in k else k
+    # slicing a String and slicing the str it derefs to are the same construct
+    return kind.replace("<alloc::string::String as core::ops::index::Index<I>>::index", "core::str::traits::index")
+
+
+def _callers(ctx):
+    if not hasattr(ctx, "_callers_cache"):
+        rev = {}
+        for b in ctx.prog.bodies.values():
+            for t, name, site in ctx.prog.callees_of(b):
+                if t is not None:
+                    rev.setdefault(_outer(t.id), set()).add(_outer(b.id))
+        ctx._callers_cache = rev
+    return ctx._callers_cache
+
+
+def _moved_from(ctx, site, stale):
+    """a triage entry whose construct is no longer where it was, and that can only be this site: same kind of construct, and the site's
+    function is the entry's function, a closure of it, or a helper that is called from nowhere but that function (extract-function,
+    closure <-> loop, closure -> named function).  The justification is about the construct, not about its address."""
+    kind = _kind_of_key(site.key)
+    g = _outer(site.body.id)
+    callers = _callers(ctx).get(g, set())
+    for k in sorted(stale):
+        if _kind_of_key(k) != kind:
+            continue
+        f = _outer(k.split("|", 1)[0])
+        if f == g or (callers and callers <= {f}) or (callers and all(_callers(ctx).get(c_, set()) <= {f} and c_ != g for c_ in callers)):
+            return k
+    return None
+
+
 def run_inventory(ctx, rep, rule, entries, triage, only=None):
     sites, reach = panics.inventory(ctx, entries)
     if only is not None:
         sites = [s_ for s_ in sites if only(s_)]
     seen_gen = {}
     n_auto = n_tri = 0
+    pending = []
+    matched = set()
     for s in sorted(sites, key=lambda s: s.key):
         if s.generated:
             seen_gen.setdefault(s.key, []).append(s)
@@ -33,6 +73,18 @@ def run_inventory(ctx, rep, rule, entries, triage, only=None):
             n_auto += 1
         elif s.key in triage:
             rule.justified(s.key, "invariant: " + triage[s.key], s.where)
+            matched.add(s.key)
+            n_tri += 1
+        else:
+            pending.append(s)
+    # constructs that moved: bind each to a triage entry that matched nothing in this tree
+    all_fns = {_outer(b.id) for b in ctx.prog.bodies.values()}
+    stale = {k for k in triage if k not in matched and "|" in k and k not in seen_gen}
+    for s in pending:
+        k = _moved_from(ctx, s, stale)
+        if k is not None:
+            stale.discard(k)
+            rule.justified(s.key, "invariant (the construct justified as %s, now here): %s" % (k.split("|")[0].split("::")[-1] + "|" + k.split("|", 1)[1], triage[k]), s.where)
             n_tri += 1
         else:
             path = ctx.prog.path_to(reach, s.body.id)
